@@ -2,6 +2,7 @@
 //! violation reporting, small combinatorics helpers.
 
 pub mod combi;
+pub mod ctors;
 pub mod pbwire;
 pub mod refmodel;
 pub mod textparse;
@@ -211,7 +212,8 @@ impl Report {
             } else {
                 new_violations += 1;
                 let path = write_replay(&self.property, v);
-                lines.push(format!("  what: {} [{}]", v.what, v.signature));
+                let what: String = v.what.chars().take(300).collect();
+                lines.push(format!("  what: {} [{}]", what, v.signature));
                 lines.push(format!(
                     "VIOLATION property={} replay={}",
                     self.property,
